@@ -12,7 +12,9 @@ class C07(Prop):
                    'tiny for a rejection); the event fed to the model is the outcome observed on the real algorithm',
                    'sources and log-likelihoods are opaque tokens in the model; the harness maps recorded tensor columns back to proposals']
     unproved = ['the recorded chain samples the posterior (follows from C05 and C06 by the Metropolis-Hastings argument): tested by comparing '
-                'chain expectations with likelihood-weighted random sampling in the thorough tier (stat-posterior cases)']
+                'expectations over a real chain (six-station polarity data, real forward task) with likelihood-weighted random sampling of 4e5 '
+                'sources, in units of the combined Monte Carlo error (batch means): one 3000-entry double-couple chain in the quick tier, 20000-entry '
+                'double-couple and full-tensor chains in the thorough tier']
     rule = ('every accept/reject history up to length 7 (thorough: 9) for small learning lengths / windows / chain lengths, random histories up '
             'to length 400, single-try double-couple / full-tensor / trans-dimensional chains and multiple-try iterations with 2..4 '
             'candidates, random and grid initialisation; non-trivial = the chain records at least three entries')
@@ -139,6 +141,70 @@ class C07(Prop):
             res['prob_sum'] = float(np.sum(np.asarray(out['probability'], dtype=float)))
         return res
 
+    # ------------------------------------------------------------------ the chain samples the posterior (statistical, not proved)
+    def _posterior_run(self, dc, chain_length, seed):
+        """A real chain on a synthetic six-station polarity data set against likelihood-weighted random sampling;
+        returns z-scores of six expectations (chain minus reference, in units of the combined Monte Carlo error)."""
+        import types
+        np, mc = self.np, self.mc
+        from MTfit import inversion as inv
+        from MTfit.algorithms import base
+        from MTfit.probability import probability as pr
+        nogc = types.SimpleNamespace(collect=lambda *a, **k: 0)
+        inv.gc = nogc
+        pr.gc = nogc
+        rs = np.random.RandomState(seed)
+        n = 6
+        st = {'Name': ['S%d' % i for i in range(n)], 'Azimuth': np.matrix(rs.uniform(0, 360, n)).T, 'TakeOffAngle': np.matrix(rs.uniform(20, 160, n)).T}
+        mtrue = np.array([1, -1, 0, 0.2, 0.1, 0.3])
+        mtrue = mtrue / np.linalg.norm(mtrue)
+        a = np.asarray(inv.station_angles(st, 'P'))
+        data = {'PPolarity': {'Stations': st, 'Measured': np.matrix(np.sign(a.dot(mtrue))).T, 'Error': np.matrix(0.3 * np.ones((n, 1)))}}
+        a_pol, err_pol, ipp = inv.polarity_matrix(data)
+
+        def forward(mts):
+            return inv.ForwardTask(mts, a_pol, err_pol, False, False, False, False, False, False, False, False, ipp, return_zero=True)()
+        f = lambda m: np.vstack([m[0] * m[0], m[1] * m[1], m[2] * m[2], m[0] * m[1], m[3] * m[3], m[4] * m[5]])
+        np.random.seed(seed)
+        nref = 400000
+        b = base.BaseAlgorithm(number_samples=nref, dc=dc)
+        mts = np.asarray(b.random_sample())
+        lnp = np.asarray(forward(mts)['ln_pdf']._ln_pdf).flatten()
+        w = np.exp(lnp - lnp.max())
+        w /= w.sum()
+        ess = 1.0 / np.sum(w * w)
+        F = f(mts)
+        ref = (F * w).sum(1)
+        refvar = ((F - ref[:, None]) ** 2 * w).sum(1)
+        alg = mc.IterativeMetropolisHastingsGaussianTape(dc=dc, learning_length=1500, chain_length=chain_length, acceptance_rate_window=500,
+                                                         initial_sample='grid', number_samples=5000, min_number_initialisation_samples=5000)
+        m, end = alg.initialise()
+        while not end:
+            m, end = alg.iterate(forward(np.asarray(m)))
+        out, _txt = alg.output(normalise=True, convert=False)
+        M = np.asarray(out['moment_tensor_space'], dtype=float)
+        G = f(M)
+        est = G.mean(1)
+        nb = 25
+        L = G.shape[1] // nb
+        bm = np.array([G[:, i * L:(i + 1) * L].mean(1) for i in range(nb)])
+        se = bm.std(0, ddof=1) / math.sqrt(nb)
+        z = (est - ref) / np.sqrt(se ** 2 + refvar / ess)
+        return [float(v) for v in z], float(out['acceptance_rate']), float(ess)
+
+    def extra(self, rng, tier):
+        runs = [(True, 3000, 11)] if tier == 'quick' else [(True, 20000, 11), (False, 20000, 12), (False, 20000, 13)]
+        cov, fails = {'posterior_runs': []}, []
+        for dc, n, seed in runs:
+            z, rate, ess = self._posterior_run(dc, n, seed)
+            cov['posterior_runs'].append({'dc': dc, 'chain_length': n, 'seed': seed, 'z': z, 'acceptance_rate': rate, 'reference_ess': ess})
+            if max(abs(v) for v in z) > 6.0:
+                fails.append(Failure('property', {'kind': 'stat-posterior', 'dc': dc, 'chain_length': n, 'seed': seed},
+                                     'expectations over the recorded chain differ from likelihood-weighted random sampling by %s combined '
+                                     'Monte Carlo standard errors (acceptance rate %.3f)' % (['%.1f' % v for v in z], rate), key='posterior'))
+        return cov, fails
+
+
     @staticmethod
     def _is_dc(x):
         import numpy as np
@@ -236,7 +302,17 @@ class C07(Prop):
                 out.append(('entry-likelihood', 'a recorded entry pairs a source with a log-likelihood that was never computed for it (%r)' % c['ln'], None))
                 break
         if case['cls'] == 'dc':
-            pass
+            # a double-couple constrained run records double-couples only: eigenvalues (1, 0, -1)/sqrt2
+            np = self.np
+            r2 = 1 / math.sqrt(2)
+            for c in impl['chain']:
+                v = c['mt']
+                m = np.array([[v[0], r2 * v[3], r2 * v[4]], [r2 * v[3], v[1], r2 * v[5]], [r2 * v[4], r2 * v[5], v[2]]])
+                w = np.linalg.eigvalsh(m)
+                if max(abs(w[0] + r2), abs(w[1]), abs(w[2] - r2)) > 1e-7:
+                    out.append(('dc-constraint', 'a double-couple constrained run (%s initialisation) recorded a tensor with eigenvalues %r' %
+                                (case['init'], [float(x) for x in w]), None))
+                    break
         if impl['tried'] > 0 and not close(impl['rate'], impl['accepted'] / float(impl['tried']), atol=1e-12):
             out.append(('rate', 'acceptance rate %r is not accepted/tried = %d/%d' % (impl['rate'], impl['accepted'], impl['tried']), None))
         if impl['pdc'] is not None and impl['chain']:
